@@ -201,3 +201,11 @@ Proof. exact certified_height_rule. Qed.
 Theorem C02_certified_height_of_chain : forall batch K s s', run_blocks batch s K = Ok s' ->
   v_mhc (s_votes s') = newest_cert K (v_mhc (s_votes s)).
 Proof. exact certified_height_of_chain. Qed.
+
+(* ImpliesMaximalPrevotes (LIP-0058), asked about the block just processed: true exactly when the header casts prevotes at all
+   (maxHeightGenerated < height) and the block of this chain at height maxHeightGenerated, if still in the window, was generated
+   by the same validator (a block at that height outside the window counts as "yes"). *)
+Theorem C02_implies_maximal_prevotes_spec : forall s b tip, Inv tip s -> window s <> [] -> h_height b = tip ->
+  exists r, implies_max_prevotes (s_votes s) b = Ok r /\
+    (r = true <-> h_mhg b < h_height b /\ forall e, In e (window s) -> i_height e = h_mhg b -> i_gen e = h_gen b).
+Proof. intros s b tip HI. exact (implies_max_prevotes_spec (s_votes s) b tip (inv_hts tip s HI)). Qed.
